@@ -7,6 +7,7 @@ import SieveModel.Model.Serialize
 import SieveModel.Model.FilterSet
 import SieveModel.Spec.Rfc5804
 import SieveModel.Model.Safety
+import SieveModel.Model.ToList
 /-! Line-protocol driver: one request per line on stdin, one answer per line on stdout. -/
 
 structure DState where
@@ -149,6 +150,10 @@ def answer (st : DState) (line : String) : DState × String :=
       | some (verb, as, r) => if r.isEmpty then s!"ok {hexOr verb} " ++ ",".intercalate (as.map showArg) else "trailing"
       | none => "bad")
   | "wf" :: rest => (st, (Spec.wfBytes st.table (hexArg rest)).name)
+  | ["tolist", h, u] =>
+    -- tools.to_list on a rendered list (bytes of its UTF-8 form): pieces, hex, comma-separated
+    (st, ",".intercalate ((ToList.toList (B.ofHex h) (u == "1")).map hexOr))
+  | ["tolist", u] => (st, ",".intercalate ((ToList.toList [] (u == "1")).map hexOr))
   | ["table-reset"] => ({ st with table := Generated.builtinTable }, "ok")
   | ["table-clear"] => ({ st with table := [] }, "ok")
   | ["table-safe"] =>
